@@ -65,6 +65,12 @@ def E1_lmpdat_writer_reader(repo, clause):
         e = eq_const(n) if isinstance(n, ast.Compare) else None
         if e is not None and e[2] and isinstance(e[1], str) and isinstance(e[0], ast.Name) and e[0].id == secvar:
             branches.add(e[1])
+        # table-driven branch: `secvar in {"Pair Coeffs": pair_coeffs, ...}` / `secvar in ("Bonds", "Angles")`
+        if isinstance(n, ast.Compare) and len(n.ops) == 1 and isinstance(n.ops[0], ast.In) and isinstance(n.left, ast.Name) and n.left.id == secvar:
+            tv = expand(r, n.comparators[0])
+            keys = tv.keys if isinstance(tv, ast.Dict) else (tv.elts if isinstance(tv, (ast.Tuple, ast.List, ast.Set)) else [])
+            if keys and all(isinstance(k_, ast.Constant) and isinstance(k_.value, str) for k_ in keys) and not (isinstance(n.comparators[0], ast.Name) and n.comparators[0].id == hname):
+                branches.update(k_.value for k_ in keys)
     floor("E1", "sections written", len(written), 11)
     for name, c in written:
         ok = name in handled and name in branches
@@ -234,8 +240,19 @@ def E1_lmpdat_writer_reader(repo, clause):
             ok = isinstance(b.left, ast.Constant) and b.left.value == "%s%s" and isinstance(tup, ast.Tuple) and len(tup.elts) == 2 \
                 and isinstance(tup.elts[0], ast.Call) and call_name(tup.elts[0]) == "join" and "[1:]" in ast.unparse(tup.elts[0].args[0]) \
                 and isinstance(tup.elts[1], ast.Name)
-            n_co += 1
-            obs.append(Ob("E1", clause, r, n, ok, "coefficient reader keeps every token after the id and re-attaches the comment", slot="coeffs-reader:%s" % n.func.value.id))
+            recv = n.func.value
+            if isinstance(recv, ast.Name):
+                n_co += 1
+                rname = recv.id
+            elif isinstance(recv, ast.Subscript) and isinstance(recv.value, ast.Name):
+                # one append through a table {section name: list}: it stands for as many branches as the table has sections
+                tv = expand(r, recv.value)
+                n_co += len(tv.keys) if isinstance(tv, ast.Dict) and all(isinstance(k_, ast.Constant) and isinstance(k_.value, str) and k_.value.endswith("Coeffs") for k_ in tv.keys) else 1
+                rname = recv.value.id + "[]"
+            else:
+                n_co += 1
+                rname = "?"
+            obs.append(Ob("E1", clause, r, n, ok, "coefficient reader keeps every token after the id and re-attaches the comment", slot="coeffs-reader:%s" % rname))
     floor("E1", "coefficient reader branches", n_co, 5)
     # comment canonical form: reader's re-join string equals the separator the writer uses for labels
     sep_r = None
@@ -760,9 +777,18 @@ def E2_cif_tags(repo, clause):
     # cell angles: each angle is between the two rows it names, normalised by the norms of the same two rows
     accs = [c_ for c_ in calls_in(cab) if call_name(c_) == "arccos"]
     want_pairs = [(1, 2), (0, 2), (0, 1)]
+    # the arccos that feeds return slot 3 + k (alpha, beta, gamma), whatever the order of the statements
+    if len(accs) == 3 and len(rets_) == 1:
+        by_slot = []
+        for el_ in rets_[0].value.elts[3:]:
+            ee_ = expand(cab, el_)
+            hit = [y for y in ast.walk(ee_) if isinstance(y, ast.Call) and call_name(y) == "arccos"]
+            by_slot.append(hit[0] if len(hit) == 1 else None)
+        if all(x is not None for x in by_slot):
+            accs = by_slot
     if len(accs) == 3:
         for k_, c_ in enumerate(accs):
-            e_ = c_.args[0]
+            e_ = expand(cab, c_.args[0]) if cab.stmt_of(c_) is not None else c_.args[0]
             dots = [d for d in ast.walk(e_) if isinstance(d, ast.Call) and call_name(d) == "dot"]
             norms = [d for d in ast.walk(e_) if isinstance(d, ast.Call) and call_name(d) == "norm"]
             di = sorted(const_value(a.slice) for d in dots for a in d.args if isinstance(a, ast.Subscript))
@@ -786,7 +812,7 @@ def E2_cif_tags(repo, clause):
                 else:
                     out.append(("?", sign))
             pw = []
-            _powers(expand(cab, e_), 1, pw)
+            _powers(e_, 1, pw)
             form_ok = sorted(pw) == [("dot", 1), ("norm", -1), ("norm", -1)]
             recognised = all(k__ in ("dot", "norm") for k__, _ in pw) and len(pw) == 3
             obs.append(Ob("E2", clause, cab, c_, form_ok,
